@@ -1076,11 +1076,20 @@ pub fn execute_case(case: &Case) -> RunResult {
     let mut run = build(case);
     let _decoy = if case.decoy {
         use cw_multi_test::App;
-        Some(App::new(|router, api, storage| {
-            router
-                .staking
-                .setup(storage, StakingInfo { bonded_denom: "decoycoin".to_string(), unbonding_time: 7, apr: Decimal::percent(50) })
-                .unwrap();
+        // either everything differs, or only the annual rate does (so that the main chain's operations would
+        // still go through if it looked at the wrong parameters, and only the rewards would be off)
+        let same_shape = case.init_balance % 2 == 0;
+        let info = if same_shape {
+            StakingInfo {
+                bonded_denom: run.denom.clone(),
+                unbonding_time: run.unbonding,
+                apr: Decimal::from_ratio((case.apr.min(10_000) + 4_000) % 10_001, 10_000u128),
+            }
+        } else {
+            StakingInfo { bonded_denom: "decoycoin".to_string(), unbonding_time: 7, apr: Decimal::percent(50) }
+        };
+        Some(App::new(move |router, api, storage| {
+            router.staking.setup(storage, info).unwrap();
             let block = mock_env().block;
             let v = api.addr_make("decoyvalidator");
             router
